@@ -1,4 +1,6 @@
 CONSTANTS Sides = {"server"}
+          MinFrames = 0
+          ValidOnly = FALSE
           MaxFrames = 3
           ReadSizes = {1, 2}
           Payloads <- PayloadsSmall
